@@ -368,7 +368,7 @@ class Local:
 
 class BaseWorld:
     """event counting and directives shared by the model backend and the real backend"""
-    real = False
+    is_real = False
 
     def __init__(self, L, page=None, batch=None):
         self.L = L
@@ -415,9 +415,18 @@ class BaseWorld:
         self.nevents += 1
         self.log.append((i, kind, detail if kind != 'sql' else detail[:60]))
         if self.crash_at is not None and (self.crash_at == i):
-            self.frozen = True
-            raise Crash()
-        if self.fault_at is not None and (self.fault_at == i):
+            if self.is_real:
+                if getattr(self, 'in_child', False):
+                    import os as _o, signal as _s
+                    _o.kill(_o.getpid(), _s.SIGKILL)
+            else:
+                self.frozen = True
+                raise Crash()
+        # injected faults: any statement except COMMIT/ROLLBACK (a failing COMMIT is an I/O failure, i.e. a crash point: C07)
+        # and any file create/write/close (failing removals only leave debris and are outside the claim)
+        if self.fault_at is not None and not (kind == 'sql' and detail.split(' ')[0] in ('COMMIT', 'ROLLBACK')) \
+                and not (kind == 'fs' and detail.split(':')[0] in ('remove', 'removedirs', 'rmdir', 'stat', 'scandir', 'listdir', 'read')) \
+                and (self.fault_at == i):
             zpath.flag('fault_injected')
             self.fault_fired = (i, kind, detail)
             if kind == 'sql':
@@ -470,7 +479,7 @@ class BaseWorld:
 
 class World(BaseWorld):
     """model backend"""
-    real = False
+    is_real = False
     dir = '/m'
 
     def __init__(self, L, page=None, batch=None):
@@ -609,6 +618,19 @@ class World(BaseWorld):
 
     def cleanup(self):
         pass
+
+    def set_busy_hook(self, cache, fn):
+        cache._con.db.busy_hook = fn
+
+    def recover(self):
+        """the process died: SQLite keeps the last committed state and the lock is released (assumed contract);
+        the file system stays as it is"""
+        for db in self.dbs.values():
+            db.txn_state = None
+            db.lock_holder = None
+        self.frozen = False
+        self.crash_at = None
+        self.counting = False
 
     def bind(self, v):
         if isinstance(v, SymContent):
